@@ -92,7 +92,7 @@ fn child_typed<T: serde::Serialize + serde::de::DeserializeOwned + Send>(c: &C, 
         b = match k {
             0 => b.with_chunk_size(c.c),
             // fail == 4: a worker pool that cannot be built (usize::MAX threads under an address-space limit)
-            1 => b.num_threads(if c.fail == 4 { usize::MAX } else { 2 }),
+            1 => b.num_threads(if c.fail == 4 && c.fail_at == 0 { 200_000 } else { 2 }),
             2 => if let Some(l) = c.comp { b.with_compression(l) } else { b },
             _ => if c.tmp == 1 { b.with_tmp_dir(&d) } else { b },
         };
@@ -197,7 +197,17 @@ fn exec(t: &[String]) -> Option<String> {
         .join(format!("harness/run/c15-{}-{}", std::process::id(), CASE_NO.fetch_add(1, std::sync::atomic::Ordering::SeqCst)));
     let tdir = base.join("t");
     std::fs::create_dir_all(&tdir).ok()?;
-    let out = run_in_child("C15", t, &[("TMPDIR", tdir.to_string_lossy().to_string())]);
+    let mut out = run_in_child("C15", t, &[("TMPDIR", tdir.to_string_lossy().to_string())]);
+    // a child that runs into its own address-space limit while failing to build a pool dies by an allocation failure (an
+    // abort, not a result): that says nothing about the property; such a run is repeated in a fresh directory
+    let c = dec(t)?;
+    let mut tries = 0;
+    while out == "abort" && c.fail == 4 && tries < 3 {
+        tries += 1;
+        std::fs::remove_dir_all(&base).ok();
+        std::fs::create_dir_all(&tdir).ok()?;
+        out = run_in_child("C15", t, &[("TMPDIR", tdir.to_string_lossy().to_string())]);
+    }
     std::fs::remove_dir_all(&base).ok();
     Some(out)
 }
@@ -258,7 +268,7 @@ fn gen(rng: &mut Rng, tier: Tier) -> Vec<Case> {
 pub fn prop() -> PropDef {
     PropDef {
         id: "C15",
-        rule: "corpus, then lifetime scripts run in a child process whose TMPDIR is a fresh directory: explicit or default tmp dir (both pre-populated with a file and a sub-directory), the builder's four setters called in every order, inputs of c+1..8c records for chunk sizes c in {1,2,3,10,50}, with or without compression; the input iterator snapshots the directory (and /proc/self/fd) after at least one chunk exists; then either a normal sort followed by draining / dropping after k items / never consuming, with the iterator dropped before or after the sorter, or a panic raised by the input iterator at item j, a panic raised by the comparator at its m-th call, or sort_by returning an error (descriptor limit lowered mid-sort); listing compared before build, after build, during the sort and after the drops; /proc/self/fd compared before build, during the sort and when sort_by has returned; a few sorts of records owning heap data (0.5-3 KiB strings, runs of 1-12 MiB); a build() that fails (usize::MAX worker threads under a 3 GiB address-space limit); two sorters built on a configured directory that does not exist, alive at the same time, dropped in either order; two sorts that have more than 2^8 runs open when the snapshot is taken. Non-trivial: the during-snapshot was taken with >= 1 chunk created. Distinct = distinct input token sequence.",
+        rule: "corpus, then lifetime scripts run in a child process whose TMPDIR is a fresh directory: explicit or default tmp dir (both pre-populated with a file and a sub-directory), the builder's four setters called in every order, inputs of c+1..8c records for chunk sizes c in {1,2,3,10,50}, with or without compression; the input iterator snapshots the directory (and /proc/self/fd) after at least one chunk exists; then either a normal sort followed by draining / dropping after k items / never consuming, with the iterator dropped before or after the sorter, or a panic raised by the input iterator at item j, a panic raised by the comparator at its m-th call, or sort_by returning an error (descriptor limit lowered mid-sort); listing compared before build, after build, during the sort and after the drops; /proc/self/fd compared before build, during the sort and when sort_by has returned; a few sorts of records owning heap data (0.5-3 KiB strings, runs of 1-12 MiB); a build() that fails (200 000 worker threads under a 3 GiB address-space limit); two sorters built on a configured directory that does not exist, alive at the same time, dropped in either order; two sorts that have more than 2^8 runs open when the snapshot is taken. Non-trivial: the during-snapshot was taken with >= 1 chunk created. Distinct = distinct input token sequence.",
         observable: "entries created under the configured directory by build(), during sort_by (top level, inside the temporary directory), after the drops (new and missing entries), entries created under the other temporary directory, descriptors opened during the sort on files (linked or already unlinked) outside the configured directory, result of sort_by",
         gen, exec, shrink, child: Some(child),
     }
